@@ -43,6 +43,7 @@ import (
 	"regexp"
 	"sort"
 	"strings"
+	"sync"
 )
 
 type gField struct {
@@ -268,11 +269,16 @@ func jaccard(a, b []string) float64 {
 type renameSet struct {
 	byObj map[types.Object]string
 	notes []string
+	// alias: current function name -> reference name, for a function that became a
+	// method (or the reverse): it cannot be renamed in the source, the loaded
+	// function is known to the rules under the reference name instead (its SSA
+	// parameter list, receiver first, is the same either way)
+	alias map[string]string
 }
 
 // computeRenames matches missing reference names against new current names.
 func computeRenames(c *Ctx, g *goldenNames) *renameSet {
-	rs := &renameSet{byObj: map[types.Object]string{}}
+	rs := &renameSet{byObj: map[types.Object]string{}, alias: map[string]string{}}
 	cur := extractNames(c)
 
 	// ---- types
@@ -515,7 +521,7 @@ func computeRenames(c *Ctx, g *goldenNames) *renameSet {
 		return out
 	}
 	usedF := map[string]bool{}
-	for round := 0; round < 3; round++ {
+	for round := 0; round < 4; round++ {
 		for _, m := range missF {
 			if _, done := func() (string, bool) {
 				for _, r := range funcMap {
@@ -538,13 +544,20 @@ func computeRenames(c *Ctx, g *goldenNames) *renameSet {
 					continue
 				}
 				sameSig := canonStr(ce.Sig) == gm.Sig
+				anySig := false
 				if !sameSig && sortedSig(canonStr(ce.Sig)) != sortedSig(gm.Sig) {
-					continue
+					// last round: renamed AND its parameter list changed (a phase moved to the
+					// caller): matched by its body alone when that is very similar
+					if round < 3 || len(gm.Feats) < 6 {
+						continue
+					}
+					anySig = true
 				}
 				s := jaccard(gm.Feats, canonFeat(ce.Feats))
 				if !sameSig && s < 0.7 {
 					continue // renamed AND parameters reordered: only with a very similar body
 				}
+				_ = anySig
 				ncand++
 				if s > best {
 					second, best, bestN = best, s, e
@@ -565,6 +578,71 @@ func computeRenames(c *Ctx, g *goldenNames) *renameSet {
 				rs.byObj[cur.funcObj[bestN]] = newIdent
 				rs.notes = append(rs.notes, fmt.Sprintf("func %s -> %s (similarity %.2f, %d candidate(s))", bestN, m, best, ncand))
 			}
+		}
+	}
+
+	// ---- function <-> method: the receiver became the first parameter or the
+	// first parameter the receiver (possibly of another type that provides what
+	// the body needs); everything else of the flattened signature is the same
+	flat := func(recv, sig string) (first string, rest string) {
+		inner := strings.TrimPrefix(sig, "(")
+		if recv != "" {
+			return recv, inner
+		}
+		depth := 0
+		for i, ch := range inner {
+			switch ch {
+			case '(', '[', '{':
+				depth++
+			case ')', ']', '}':
+				if depth == 0 {
+					return inner[:i], inner[i:]
+				}
+				depth--
+			case ',':
+				if depth == 0 {
+					return inner[:i], strings.TrimPrefix(inner[i+1:], " ")
+				}
+			}
+		}
+		return "", inner
+	}
+	for _, m := range missF {
+		mapped := false
+		for _, r := range funcMap {
+			if r == m {
+				mapped = true
+			}
+		}
+		if mapped {
+			continue
+		}
+		gm := g.Funcs[m]
+		_, grest := flat(gm.Recv, gm.Sig)
+		best, second, bestN := -1.0, -1.0, ""
+		for _, e := range extraF {
+			if usedF[e] {
+				continue
+			}
+			ce := cur.g.Funcs[e]
+			if (canonStr(ce.Recv) == "") == (gm.Recv == "") {
+				continue
+			}
+			_, crest := flat(canonStr(ce.Recv), canonStr(ce.Sig))
+			if crest != grest {
+				continue
+			}
+			s := jaccard(gm.Feats, canonFeat(ce.Feats))
+			if s > best {
+				second, best, bestN = best, s, e
+			} else if s > second {
+				second = s
+			}
+		}
+		if bestN != "" && best >= 0.6 && best-second >= 0.15 {
+			usedF[bestN] = true
+			rs.alias[bestN] = m
+			rs.notes = append(rs.notes, fmt.Sprintf("func %s is known as %s (function <-> method, similarity %.2f)", bestN, m, best))
 		}
 	}
 
@@ -727,6 +805,10 @@ func normaliseNames(c *Ctx, o loadOpts) *Ctx {
 	}
 	rs := computeRenames(c, &g)
 	if len(rs.byObj) == 0 {
+		if len(rs.alias) > 0 {
+			c.applyAliases(rs.alias)
+			c.NameNotes = rs.notes
+		}
 		return c
 	}
 	tmp, err := rewriteTree(c, o.dir, rs)
@@ -745,7 +827,20 @@ func normaliseNames(c *Ctx, o loadOpts) *Ctx {
 	c2.Dir = o.dir
 	c2.LoadDir = tmp
 	c2.NameNotes = rs.notes
+	c2.applyAliases(rs.alias)
 	return c2
 }
 
 var _ = token.NoPos
+
+// fnAlias: loaded function -> the reference name the rules know it under.
+var fnAlias sync.Map
+
+func (c *Ctx) applyAliases(alias map[string]string) {
+	for cur, ref := range alias {
+		if fn, ok := c.byName[cur]; ok {
+			fnAlias.Store(fn, ref)
+			c.byName[ref] = fn
+		}
+	}
+}
